@@ -38,6 +38,11 @@ def lowerChar (c : Char) : Char :=
 def lower (s : Str) : Str := s.map lowerChar
 def asciiLower (s : Str) : Str := s.map asciiLowerChar
 
+/-- the white space `int(str)` and `float(str)` skip around a literal: `str.isspace` MINUS the generated table
+    `intSpaceExcluded` (on CPython: U+001C–U+001F — non-ASCII white space is mapped to a blank, ASCII characters are
+    left alone and the parsers skip C `isspace` only).  `str.strip`, `str.split()` and `\s` use `pySpace`. -/
+def intSpace (c : Char) : Bool := pySpace c && !Gen.intSpaceExcluded.contains c.toNat
+
 def lstrip (s : Str) : Str := s.dropWhile pySpace
 def rstrip (s : Str) : Str := (s.reverse.dropWhile pySpace).reverse
 def strip (s : Str) : Str := rstrip (lstrip s)
@@ -73,8 +78,14 @@ def rsplit1 (s : Str) (c : Char) : Str × Str :=
   let after := (s.reverse.takeWhile (· != c)).reverse
   (s.take (s.length - after.length - 1), after)
 
-/-- `int(s)` for a `str` argument: strip, optional sign, digits of any Nd script with
-    single underscores between digits; unbounded result -/
+/-- what `int(str)` / `float(str)` look at: the text without the surrounding `intSpace` characters
+    (NOT `str.strip()`: `'\x1c1'.strip() == '1'` and `int('\x1c1')` is a `ValueError`) -/
+def lstripInt (s : Str) : Str := s.dropWhile intSpace
+def rstripInt (s : Str) : Str := (s.reverse.dropWhile intSpace).reverse
+def stripInt (s : Str) : Str := rstripInt (lstripInt s)
+
+/-- `int(s)` for a `str` argument: skip the surrounding white space (`stripInt`), optional sign, digits of any
+    Nd script with single underscores between digits; unbounded result -/
 def pyDigits : Str → Option (List Nat)
   | [] => some []
   | c :: t =>
@@ -94,7 +105,7 @@ def pyNat (s : Str) : Option Nat :=
   | c :: _ => if pyDigit c then (pyDigits s).map digitsVal else none
 
 def pyInt (s : Str) : Option Int :=
-  match strip s with
+  match stripInt s with
   | '-' :: t => (pyNat t).map (fun n => - (Int.ofNat n))
   | '+' :: t => (pyNat t).map Int.ofNat
   | t => (pyNat t).map Int.ofNat
